@@ -32,12 +32,14 @@ ASSUMPTIONS = [
     "well-formed = what docs/reference/docstrings.md documents: Google sections separated by a blank line, contents indented once (2 or 4 spaces), "
     "continuation lines indented twice (not indented further when *_multiple_items=False, which implies a single item), optional `: title`; Numpy "
     "header + dash line of the header's length, item lines un-indented, descriptions indented by 4; items are `name`, `name : type`, `name :`, "
-    "`: type`, `:` as documented; Sphinx: text first, then `:param|:var|:returns|:raises` fields with optional `:type|:vartype|:rtype` (the "
+    "`: type`, `:` as documented; Sphinx: text first, then `:param|:var|:returns|:raises` fields with optional `:type|:vartype|:rtype` or an in-line `:param type name:` (the "
     "docs only link to the Sphinx tutorial), descriptions compared after folding white space",
     "free text after a section is generated for Google only (Numpy/Sphinx have no documented way to end a section other than a new header/field)",
     "descriptions: the first physical line never contains a colon (it would be ambiguous with `name: description` in Returns-like sections); "
     "later lines may; no line is blank at the start or end of a description",
     "each section kind other than text/examples/admonition occurs at most once per docstring; item names are unique per docstring",
+    "property parents: Returns and Yields items take omitted types from the getter's return annotation (Receives is not generated for "
+    "properties); a property docstring has either a `type: summary` first line or a Returns section, not both",
     "types/defaults come from pools whose str() through Griffe's expression builder is the source text (verified once per process)",
     "an empty text section on the parsed side is ignored; admonition titles are only asserted when a custom title was written (Google)",
     "Sphinx attribute annotations are not asserted when `:vartype` is omitted (docs: fetching from the parent is unsupported)",
@@ -290,6 +292,17 @@ def _describe(ctx):
             if a != "text" and b != "text":
                 classes.append("adjacent-non-text")
                 break
+        if case["parent"] == "class" and case.get("inherit") and any(it.get("sig") for s in case["sections"] if s["kind"] == "attributes" for it in s["items"]):
+            classes.append(f"{case['style']}:inherited-attributes")
+        if case["style"] == "sphinx" and any(it["ann"] and " " not in it["ann"] and it.get("v", 0) & 2 for s in case["sections"] if s["kind"] == "parameters" for it in s["items"]):
+            classes.append("sphinx:inline-param-type")
+        if case["parent"] == "property":
+            for sec in case["sections"]:
+                if sec["kind"] in ("returns", "yields"):
+                    untyped = sum(1 for it in sec["items"] if not it["ann"])
+                    classes.append(f"{case['style']}:property:{sec['kind']}:{'untyped' if untyped else 'typed'}{'-multi' if len(sec['items']) > 1 else ''}{'' if case.get('retsig') else ':nosig'}")
+        if any(ln.lstrip().startswith(":") for s in case["sections"] for it in s.get("items", ()) for ln in it["desc"][1:]):
+            classes.append(f"{case['style']}:role-leading-continuation-line")
         on = [k for k, v in case["opts"].items() if v != (k in S.DEFAULT_TRUE)]
         classes += [f"{case['style']}:opt:{k}={case['opts'][k]}" for k in on]
         sample = None
